@@ -1582,10 +1582,15 @@ def build_load_balancer(p, seed):
 def _gen_sketch(rng):
     return {"items": rng.choice([30, 200]), "rate": rng.choice([300.0, 600.0]), "horizon": 2.0, "width": rng.choice([16, 64, 272]),
             "depth": rng.choice([2, 4]), "k": rng.choice([5, 10]), "weights": rng.random() < 0.5,
-            "item_kind": rng.choice(ITEM_KINDS), "clear_at": rng.choice([None, None, 0.3, 0.6])}
+            "item_kind": rng.choice(ITEM_KINDS), "clear_at": rng.choice([None, None, 0.3, 0.6]),
+            # sketch seeds: derived from the user seed, or fixed by the scenario (default seed / a constant shared by all replications)
+            "sketch_seed": rng.choice(["derived", "default", 7, "default"]), "shared_dist": rng.random() < 0.4}
 
 
-ITEM_KINDS = ["str", "str", "tuple", "tuple", "dataclass", "frozenset", "frozenset"]
+ITEM_KINDS = ["str", "str", "tuple", "dataclass", "frozenset", "frozenset", "number", "number", "number"]
+# "number": the items are bucket numbers; *which numeric type* (int / float / bool / Decimal / Fraction — all equal and hashing
+# equal for the same value) follows the user seed, so a sibling or another run of the model uses another type for equal values
+NUMBER_TYPES = ["int", "float", "Decimal", "Fraction", "bool"]
 
 
 import dataclasses as _dc  # noqa: E402
@@ -1611,10 +1616,26 @@ def _sketch_pipeline(p, seed, which):
     kind = p.get("item_kind", "str")
     region_of = lambda c: ["us-east", "us-west", "eu", "ap"][len(c) % 4 if c is None else int(c.split(":")[1]) % 4]  # noqa: E731
 
+    ntype = NUMBER_TYPES[seed % len(NUMBER_TYPES)]
+
     def mk_item(c, region=None):
-        """str: the customer id; otherwise a composite hashable containing strings (region derived from the id)."""
+        """str: the customer id; number: its bucket number in the numeric type of this run; otherwise a composite hashable
+        containing strings (region derived from the id)."""
         if c is None or kind == "str":
             return c
+        if kind == "number":
+            n = int(c.split(":")[1])
+            if ntype == "float":
+                return float(n)
+            if ntype == "bool":
+                return bool(n % 2)
+            if ntype == "Decimal":
+                import decimal
+                return decimal.Decimal(n)
+            if ntype == "Fraction":
+                import fractions
+                return fractions.Fraction(n, 1)
+            return n
         r = region_of(c)
         if kind == "tuple":
             return (r, c)
@@ -1626,7 +1647,9 @@ def _sketch_pipeline(p, seed, which):
     w = (lambda e: 1 + e.context.get("n", 0) % 3) if p["weights"] else None
     cols = {}
     if "cms" in which:
-        cols["cms"] = SketchCollector("cms", CountMinSketch(width=p["width"], depth=p["depth"], seed=sub(seed, 21)), get, w)
+        ss = p.get("sketch_seed", "derived")
+        cms_seed = sub(seed, 21) if ss == "derived" else (None if ss == "default" else int(ss))
+        cols["cms"] = SketchCollector("cms", CountMinSketch(width=p["width"], depth=p["depth"], seed=cms_seed), get, w)
     if "others" in which:
         cols["hll"] = SketchCollector("hll", HyperLogLog(precision=8, seed=sub(seed, 22)), get)
         cols["bloom"] = SketchCollector("bloom", BloomFilter(size_bits=512, num_hashes=3, seed=sub(seed, 23)), get)
@@ -1639,17 +1662,21 @@ def _sketch_pipeline(p, seed, which):
 
     def fan(self, ev):
         ev.context["n"] = self.calls
-        r = ev.context.get("region")
+        r = (ev.context.get("region"), ev.context.get("dst_region"), ev.context.get("billing_region"))
         regions[r] = regions.get(r, 0) + 1
         return [Event(time=self.now, event_type="Observe", target=c, context=ev.context) for c in order]
 
     fanout = Proc("fanout", fan)
     from happysimulator.distributions.uniform import UniformDistribution
 
-    prov = DistributedFieldProvider(target=fanout, event_type="Request",
-                                    field_distributions={"customer_id": ZipfDistribution(customers, s=1.1, seed=sub(seed, 27)),
-                                                         "region": UniformDistribution(["us-east", "us-west", "eu", "ap"], seed=sub(seed, 28))},
-                                    stop_after=at(p["horizon"] * 0.8))
+    zipf = ZipfDistribution(customers, s=1.1, seed=sub(seed, 27))
+    uni = UniformDistribution(["us-east", "us-west", "eu", "ap"], seed=sub(seed, 28))
+    fields = {"customer_id": zipf, "region": uni}
+    if p.get("shared_dist"):
+        # one distribution instance registered under several field names: the fields draw from one stream, in field order
+        fields.update({"referrer_id": zipf, "dst_region": uni, "billing_region": uni})
+    prov = DistributedFieldProvider(target=fanout, event_type="Request", field_distributions=fields,
+                                    static_fields={"api_version": "v2", "tenant": "acme"}, stop_after=at(p["horizon"] * 0.8))
     src = Source.poisson(rate=p["rate"] / max(1, len(order)), event_provider=prov, name="src")
 
     def clear_all(self, ev):
@@ -1685,7 +1712,9 @@ def _sketch_pipeline(p, seed, which):
             s.add("quant.summary", q.summary())
         for nm, c in cols.items():
             s.add(f"{nm}.events", c.events_processed)
-        s.add("regions", regions)
+        s.add("regions", sorted((repr(k), v) for k, v in regions.items()))
+        s.probe("sketch_number_items", kind == "number")
+        s.probe("provider_shared_distribution", bool(p.get("shared_dist")))
         s.probe("sketch_cleared_mid_run", resetter.calls > 0)
     return sim, stats
 
@@ -2371,6 +2400,72 @@ def build_parallel_links(p, seed):
     return _ParallelRun(psim), stats
 
 
+
+# ===========================================================================
+# 18. sources family: DistributedFieldProvider with shared distribution instances and static fields
+# ===========================================================================
+
+def _gen_field_provider(rng):
+    return {"rate": rng.choice([150.0, 300.0]), "horizon": rng.choice([1.0, 1.5]), "share": rng.choice(["regions", "regions+ids", "none"]),
+            "pinned": rng.random() < 0.5, "arrival": rng.choice(["poisson", "poisson", "constant"]), "regions": rng.choice([3, 5])}
+
+
+@model("field_provider", "sources-servers", _gen_field_provider)
+def build_field_provider(p, seed):
+    """A Source whose DistributedFieldProvider samples five request fields; with share != none several field names are
+    registered with ONE distribution instance (src_region / dst_region / via_region share a UniformDistribution, customer_id /
+    referrer_id a ZipfDistribution), plus static fields — one of them under the name of a distributed field when `pinned`.
+    A router sends every request to the server of its dst_region; per-route counters are the statistics."""
+    from happysimulator.components.server.server import Server
+    from happysimulator.distributions.constant import ConstantLatency
+    from happysimulator.distributions.uniform import UniformDistribution
+    from happysimulator.distributions.zipf import ZipfDistribution
+    from happysimulator.load.providers.distributed_field import DistributedFieldProvider
+
+    regions = ["us-east", "us-west", "eu-central", "ap-south", "sa-east"][: p["regions"]]
+    ids = words(40, "cust")
+    sink = Sink("sink")
+    servers = {r: Server(f"server-{r}", concurrency=2, service_time=ConstantLatency(0.002), downstream=sink) for r in regions}
+    routes = {}
+
+    def route(self, ev):
+        c = ev.context
+        key = (c.get("src_region"), c.get("dst_region"), c.get("via_region"), c.get("tier"))
+        routes[key] = routes.get(key, 0) + 1
+        self.pairs = getattr(self, "pairs", 0) + int(c.get("customer_id") == c.get("referrer_id"))
+        return [Event(time=self.now, event_type="Request", target=servers[c["dst_region"]], context=c)]
+
+    router = Proc("router", route)
+    uni = lambda k: UniformDistribution(regions, seed=sub(seed, 61 + k))  # noqa: E731
+    zipf = lambda k: ZipfDistribution(ids, s=1.2, seed=sub(seed, 71 + k))  # noqa: E731
+    if p["share"] == "none":
+        fields = {"src_region": uni(0), "dst_region": uni(1), "via_region": uni(2), "customer_id": zipf(0), "referrer_id": zipf(1)}
+    else:
+        u = uni(0)
+        fields = {"src_region": u, "dst_region": u, "via_region": u, "customer_id": zipf(0), "referrer_id": zipf(1)}
+        if p["share"] == "regions+ids":
+            zz = zipf(0)
+            fields["customer_id"] = fields["referrer_id"] = zz
+    static = {"api_version": "v2", "tier": "gold"}
+    if p["pinned"]:
+        static["via_region"] = regions[0]
+    prov = DistributedFieldProvider(target=router, event_type="Request", field_distributions=fields, static_fields=static,
+                                    stop_after=at(p["horizon"] * 0.9))
+    mk = Source.poisson if p["arrival"] == "poisson" else Source.constant
+    src = mk(rate=p["rate"], event_provider=prov, name="src")
+    sim = Simulation(sources=[src], entities=[router, sink, *servers.values()], end_time=at(p["horizon"]))
+
+    def stats(s):
+        s.add("routes", sorted((repr(k), v) for k, v in routes.items()))
+        s.add("same_customer_and_referrer", getattr(router, "pairs", 0))
+        for r, sv in servers.items():
+            s.add(sv.name, sv.stats)
+        s.add("sink", sink.events_received)
+        s.probe("provider_shared_distribution", p["share"] != "none")
+        s.probe("provider_static_field_shadows_distribution", bool(p["pinned"]))
+    return sim, stats
+
+
 # ---------------------------------------------------------------------------
 # variant = the categorical parameter(s) that select the code path; part of the violation signature so that a recorded
 # finding about one policy/strategy does not hide another one in the same model
@@ -2402,8 +2497,9 @@ VARIANT = {
     "event_log_group": lambda p: f"{p['assign']}-{p['sharding']}",
     "rate_limiters": lambda p: p["kind"],
     "load_balancer": lambda p: "+".join(p["strategies"]),
-    "sketch_cms": lambda p: ("weighted" if p["weights"] else "unit") + ("" if p.get("item_kind", "str") == "str" else "-" + p["item_kind"]),
-    "sketch_others": lambda p: "all" + ("" if p.get("item_kind", "str") == "str" else "-" + p["item_kind"]),
+    "sketch_cms": lambda p: ("weighted" if p["weights"] else "unit") + ("" if p.get("item_kind", "str") == "str" else "-" + p["item_kind"])
+    + ("-shareddist" if p.get("shared_dist") else ""),
+    "sketch_others": lambda p: "all" + ("" if p.get("item_kind", "str") == "str" else "-" + p["item_kind"]) + ("-shareddist" if p.get("shared_dist") else ""),
     "industrial_line": lambda p: "line",
     "behaviour_agents": lambda p: f"{p['graph']}-{p['influence']}-{p['model']}",
     "prebuilt_events": lambda p: "post-only" if p["pre"] == 0 and not p.get("once") else "pre+post",
@@ -2413,6 +2509,7 @@ VARIANT = {
     "write_policy": lambda p: p["policy"],
     "fault_schedule": lambda p: "+".join(p["extra"]),
     "dying_run": lambda p: p["how"],
+    "field_provider": lambda p: p["share"] + ("+pinned" if p["pinned"] else ""),
     "prepared_events": lambda p: "built-before-sim" if p["before_sim"] else "built-after-sim",
     "parallel_links": lambda p: ("ties" if p.get("ties") else "noties") + ("+loss" if p["loss"] or not p["latency"] else "")
     + ("+latency" if p["latency"] else "") + ("+ack" if p["ack"] else ""),
